@@ -120,7 +120,7 @@ func renderList(e *Expression, verbose bool) string {
 			strs = append(strs, fmt.Sprintf("%#v", v.Left))
 			continue
 		}
-		strs = append(strs, fmt.Sprintf("%s", v.Left))
+		strs = append(strs, fmt.Sprintf("%v", v.Left))
 	}
 
 	if verbose {
